@@ -45,6 +45,7 @@ def arg_int(e, i):
 
 def resolve_link_obligation(prog):
     """Walk::resolve_link: the link target (relative or absolute) passes through Walk::absolute / canonicalize before it is returned"""
+    import optsum
     rl = prog.method("Walk", "resolve_link")
     eng_rl = oblig.engine(prog, unroll=0, inline=None, extra=optsum.SUMMARIES)
     lk = Lazy("link", rl.args[1][1])
